@@ -1,5 +1,5 @@
 """C04 - masked observations never influence training, scoring or selection."""
-from .common import cli_main, concrete_screen, all_eq
+from .common import cli_main, cli_argv, concrete_screen, all_eq
 
 PROPERTY = "C04"
 LEVEL = "model_checking"
@@ -7,7 +7,7 @@ FUNCTIONS = [
     "batchie.core.BayesianModel.add_observations",
     "batchie.models.sparse_combo.SparseDrugCombo._add_observations / LegacySparseDrugComboImpl._update / encode_obs",
     "batchie.models.sparse_combo_interaction.SparseDrugComboInteraction._add_observations",
-    "batchie.cli.train_model.main (argument parser stubbed; sampling.sample replaced by a recorder: what the sampler computes from the training arrays is C08)",
+    "batchie.cli.train_model.main (through get_parser / get_args with sys.argv set; sampling.sample replaced by a recorder: what the sampler computes from the training arrays is C08)",
     "batchie.data.Screen.subset_observed", "batchie.scoring.main.score_chunk / select_next_plate",
     "batchie.distance_calculation.calculate_pairwise_distance_matrix_on_predictions", "batchie.distance.mse.MSEDistance.distance",
     "batchie.scoring.gaussian_dbal.GaussianDBALScorer.score",
@@ -128,8 +128,8 @@ def h_train(ctx, cfg):
     saved = tm.sampling.sample
     tm.sampling.sample = fake_sample
     try:
-        cli_main(ctx, "batchie.cli.train_model", data=sfn, model_cls=cls, model_params={"n_embedding_dimensions": 1},
-                 output=ctx.tmp("thetas.h5"), n_samples=1, n_burnin=0, thin=1, n_chains=1, chain_index=0, seed=0)
+        cli_argv(ctx, "batchie.cli.train_model", ["--data", sfn, "--model", cls.__name__, "--model-param", "n_embedding_dimensions=1",
+                                                  "--output", ctx.tmp("thetas.h5"), "--n-samples", 1, "--n-burnin", 0, "--thin", 1])
     except PoisonUsed:
         ctx.fail("a masked observation value was read while training the model", key="%s: masked value read during training" % cfg["model"])
     finally:
@@ -142,8 +142,8 @@ def h_train(ctx, cfg):
         concrete_screen(ctx, rows, observations=obs2, mask=mask).save_h5(sfn)
         tm.sampling.sample = fake_sample
         try:
-            cli_main(ctx, "batchie.cli.train_model", data=sfn, model_cls=cls, model_params={"n_embedding_dimensions": 1},
-                     output=ctx.tmp("thetas2.h5"), n_samples=1, n_burnin=0, thin=1, n_chains=1, chain_index=0, seed=0)
+            cli_argv(ctx, "batchie.cli.train_model", ["--data", sfn, "--model", cls.__name__, "--model-param", "n_embedding_dimensions=1",
+                                                      "--output", ctx.tmp("thetas2.h5"), "--n-samples", 1, "--n-burnin", 0, "--thin", 1])
         finally:
             tm.sampling.sample = saved
         m2 = captured["model"]
